@@ -39,6 +39,16 @@ class Shrinker:
             return True
         return False
 
+    def narrow(self):
+        """an enumerating op told us which single variant failed: keep only that one"""
+        nar = getattr(self.best.violation, "narrow", None)
+        step = self.best.violation_step
+        if not nar or step is None or step >= len(self.ops):
+            return
+        op = {k: v for k, v in self.ops[step].items() if not (k in nar and nar[k] is None)}
+        op.update({k: v for k, v in nar.items() if v is not None})
+        self._try(self.spec, self.ops[:step] + [op] + self.ops[step + 1:])
+
     def ddmin(self):
         ops = self.ops
         n = 2
@@ -97,6 +107,7 @@ class Shrinker:
     def run(self):
         # the ops after the violating step were never executed
         self._try(self.spec, self.ops)
+        self.narrow()
         self.ddmin()
         self.simplify_ops()
         self.simplify_spec()
